@@ -74,4 +74,19 @@ pub open spec fn content_filled(s0: ModuleSlot, s1: ModuleSlot, u: Url, content:
         _ => true,
     }
 }
+/// how a finished content load must end, whatever the code does in between (stated once, after the whole `match`, so
+/// that deleting or rewriting an arm cannot take its clause away with it)
+pub open spec fn content_item_settled(g0: ModuleGraph, g1: ModuleGraph, item: PendingContentLoadItem) -> bool {
+    let u = item.specifier;
+    &&& only_slot_changed(g0, g1, u)
+    &&& match item.result {
+            Ok(Some(LoadResponse::External { .. })) => load_error_stored(g1, u, item.maybe_range, ModuleLoadError::Jsr(JsrLoadError::ContentLoadExternalSpecifier)),
+            Ok(Some(LoadResponse::Module { content, specifier, .. })) =>
+                if specifier == u { g0.module_slots@.contains_key(u) ==> content_filled(g0.module_slots@[u], g1.module_slots@[u], u, content) }
+                else { load_error_stored(g1, u, item.maybe_range, ModuleLoadError::Jsr(JsrLoadError::RedirectInPackage(specifier))) },
+            Ok(Some(LoadResponse::Redirect { specifier })) => load_error_stored(g1, u, item.maybe_range, ModuleLoadError::Jsr(JsrLoadError::RedirectInPackage(specifier))),
+            Ok(None) => missing_stored(g1, u, item.maybe_range),
+            Err(e) => load_error_stored(g1, u, item.maybe_range, ModuleLoadError::Jsr(JsrLoadError::ContentLoad(std::sync::Arc::new(e)))),
+        }
+}
 } // verus!
